@@ -9,7 +9,17 @@ Rec == ndJsonDeserialize(IOEnv.TRACE)
 VARIABLES i, bad
 vars == <<i, bad>>
 
+\* a large archive built by rule (n entries, messages "abc" / "abcdefg" alternating, title "T"): header totals
+BigTextClause(ev) ==
+  LET h == ev.head  e == ev.endian  n == ev.n
+      half == n \div 2  odd == n - half          \* entries 0,2,4,.. carry "abc" (odd many when n is odd), the others "abcdefg"
+      ds == IF ev.fmt = "unicode" THEN 4 + odd * 8 + half * 16 ELSE odd * 4 + half * 8
+  IN IF Rd32(h, 4, e) # ds \/ Rd32(h, 8, e) # 0 \/ Rd32(h, 12, e) # n \/ Rd32(h, 0, e) # ev.len THEN 1
+     ELSE IF ~ev.reparsed_equal THEN 3
+     ELSE 0
+
 Clause(ev) ==
+  IF ev.op = "bigtext" THEN BigTextClause(ev) ELSE
   IF ev.op # "text" THEN 8                       \* mila failed to serialize or re-parse
   ELSE
   LET v == [title |-> ev.title, entries |-> ev.entries]
